@@ -12,13 +12,18 @@ RULE = ("scenarios over a fresh module/class per case: 1-2 targets of kind {modu
         "instance, classmethod, staticmethod, plain attribute}, 1-4 patchers with replacement kind {default mock, plain function, "
         "classmethod(fn), staticmethod(fn), @asynq function, bound method, callable object, attribute-refusing callable, "
         "non-callable, new_callable = MagicMock / callable class / NonCallableMock / a callable that refuses attribute assignment "
-        "with AttributeError (__slots__), TypeError (frozen __setattr__, immutable builtin type) or RuntimeError} x behaviour "
+        "with AttributeError (__slots__), TypeError (frozen __setattr__, immutable builtin type) or RuntimeError, a Mock/MagicMock "
+        "INSTANCE given as new=, a class given as new=} x behaviour "
         "{returns, raises}, an op list of enters/exits (with-block, function decorator, several decorators stacked on one function, class decorator), start/stop/stopall, "
         "exits by exception, and probes that call through all four conventions.  Part 1: the full product target kind x "
         "replacement kind x activation style x exit path as single blocks; part 1b (reactivation): ONE patcher object activated "
         "2-3 times in a row (a decorated function / method of a decorated class called again, start/stop/start, several with-blocks, "
         "styles mixed), alone, inside another patch, with another patch in between or next to a second target; the object a "
-        "per-activation replacement (default mock, new_callable) installs is identified per activation; part 2: random well-bracketed nestings and "
+        "per-activation replacement (default mock, new_callable) installs is identified per activation; part 1c (shared replacement): "
+        "ONE caller-supplied object given as new= to 2-3 patchers (of two targets, or nested on one target; every explicit replacement "
+        "kind; with-block / decorator / class decorator / start-stop / start-stopall for either patch) whose lifetimes overlap, the "
+        "surviving patch probed after the other one ended (plus sequential reuse as control); part 2 (30% of the later patchers reuse "
+        "an earlier patcher's object): random well-bracketed nestings and "
         "sequences (mostly on one target); part 3 (malformed stream, ~12%): non-LIFO stops, double starts, stop without start, "
         "stopall under a with-block, a patcher nested in itself.  distinct = different (targets, patchers, op list); "
         "non-trivial = at least one activation with a probe inside it and one after it")
@@ -34,6 +39,8 @@ ASSUMPTIONS = ["'well-bracketed' = the stack discipline of Mock wb: every enter/
                "the patch is refused (the replacement's own AttributeError / TypeError / RuntimeError is re-raised) and the original is left in place",
                "a default mock / new_callable product is a new object on every activation of a patcher; 'the replacement' of an activation is "
                "the object that activation installed, not the one an earlier activation of the same patcher installed",
+               "one object given as new= to several patchers is 'the replacement' of each of them: as long as one of these patches is active its "
+               "target must reach that object through every convention, also after another patch that was given the same object has ended",
                "received arguments: the given arguments, preceded by the bound instance/class exactly when the descriptor protocol binds "
                "the replacement (plain function or @asynq function fetched through an instance, classmethod object)"]
 EXPLANATION = ("Mock.v models the attribute store, every _patch object's saved original, _active_patches, _maybe_wrap_new's "
@@ -41,16 +48,24 @@ EXPLANATION = ("Mock.v models the attribute store, every _patch object's saved o
                "(all well-bracketed op lists, any number of targets/patchers), C19_conventions_reach_replacement (whole product, "
                "argument type polymorphic), C19_noncallable_as_is, C19_maybe_wrap_new_spec, C19_enter_refusal (any refusal exception: "
                "state untouched, exception re-raised), C19_reactivation_fresh/_same + C19_probe_reaches_current (a re-activated patcher "
-               "installs a new per-activation object and every convention reaches the object in place now).")
+               "installs a new per-activation object and every convention reaches the object in place now), C19_attach_persists / "
+               "C19_survivor_reached / C19_survivor_agree (the .asynq/.asyncio wrappers are never taken off an object again, for ANY op "
+               "list: a patch whose replacement object is shared with other patches is reached by all four conventions after those ended), "
+               "C19_shared_same_object / _wrapped_distinct / _body (what two patchers given one object install).")
 
 TKS = ["TModFn", "TMethod", "TInstMethod", "TClassmethod", "TStaticmethod", "TAttr"]
 RKS = ["RDefault", "RFunc", "RClassmethod", "RStaticmethod", "RAsynqFn", "RBound", "RCallableObj", "RSlotsObj",
-       "RNonCallable", "RNcMock", "RNcObj", "RNcSlots", "RNcNonCallable", "RNcFrozen", "RNcType", "RNcRaiser"]
+       "RNonCallable", "RNcMock", "RNcObj", "RNcSlots", "RNcNonCallable", "RNcFrozen", "RNcType", "RNcRaiser",
+       "RMockObj", "RClassObj"]
 NONCALLABLE = ("RNonCallable", "RNcNonCallable")
 # made by unittest.mock on every activation (new is DEFAULT) vs. the one object given as new=
 PER_ACTIVATION = ("RDefault", "RNcMock", "RNcObj", "RNcSlots", "RNcNonCallable", "RNcFrozen", "RNcType", "RNcRaiser")
 # callable products of new_callable that refuse `obj.asynq = ...` (AttributeError / TypeError / TypeError / RuntimeError)
 REFUSING = ("RNcSlots", "RNcFrozen", "RNcType", "RNcRaiser")
+# explicit new= objects that _maybe_wrap_new hands back unchanged: given to several patchers they are ONE installed object
+AS_IS = ("RAsynqFn", "RCallableObj", "RNonCallable", "RMockObj", "RClassObj")
+# explicit new= objects (a caller can give the same one to several patches)
+EXPLICIT = tuple(r for r in RKS if r not in PER_ACTIVATION)
 STYLES = ["SWith", "SDecor", "SDecorCls", "SDecorStack", "StartStop", "StartStopAll"]
 
 
@@ -74,18 +89,38 @@ def open_close(p, style, exc):
     return [{"OStart": [p]}], [{"OStopAll": [B(exc)]}]
 
 
+def norm_ps(ps):
+    """[target, replacement kind, behaviour, share]; share (default: own index) = the lowest patcher that is given the
+    same caller-supplied object as new= (only explicit replacements can be shared; sharers have the same kind/behaviour)"""
+    out = []
+    for i, p in enumerate(ps):
+        p = list(p)
+        if len(p) < 4:
+            p.append(i)
+        out.append(p)
+    return out
+
+
 def mk(tks, ps, ops, api=None, reuse=True, **meta):
-    c = {"tks": tks, "ps": [list(p) for p in ps], "ops": ops, "api": api or ["object"] * len(ps), "reuse": bool(reuse), "meta": meta}
+    ps = norm_ps(ps)
+    c = {"tks": tks, "ps": ps, "ops": ops, "api": api or ["object"] * len(ps), "reuse": bool(reuse), "meta": meta}
     c["tree"] = [tks, [{"": list(p)} for p in ps], ops]
     return c
 
 
 def model_input(c):
-    return " ".join(coqrun.coq_of(a) for a in [c["tks"], [{"": list(p)} for p in c["ps"]], c["ops"]])
+    return " ".join(coqrun.coq_of(a) for a in [c["tks"], [{"": list(p)} for p in norm_ps(c["ps"])], c["ops"]])
+
+
+def sharers(ps, p):
+    """the other patchers that were given the same replacement object as p"""
+    if ps[p][1] in PER_ACTIVATION:
+        return []
+    return [q for q in range(len(ps)) if q != p and ps[q][3] == ps[p][3] and ps[q][1] not in PER_ACTIVATION]
 
 
 def canon(c):
-    return json.dumps([c["tks"], c["ps"], c["ops"], c.get("api"), c.get("reuse", True)], sort_keys=True)
+    return json.dumps([c["tks"], norm_ps(c["ps"]), c["ops"], c.get("api"), c.get("reuse", True)], sort_keys=True)
 
 
 def _args(rng):
@@ -131,7 +166,13 @@ def nested_case(rng):
     ps = []
     for _ in range(nps):
         t = 0 if rng.random() < 0.8 else rng.randrange(ntk)
-        ps.append((t, _pick_rk(rng, tks[t]), "BRaise" if rng.random() < 0.2 else "BRet"))
+        prev = [q for q in range(len(ps)) if ps[q][1] in EXPLICIT and compat(tks[t], ps[q][1])]
+        if prev and rng.random() < 0.3:
+            # the same caller-supplied object as an earlier patcher (same or another target)
+            q = rng.choice(prev)
+            ps.append((t, ps[q][1], ps[q][2], ps[q][3]))
+        else:
+            ps.append((t, _pick_rk(rng, tks[t]), "BRaise" if rng.random() < 0.2 else "BRet", len(ps)))
     budget = [rng.choice([2, 3, 4, 5, 6])]
 
     def probes():
@@ -172,9 +213,11 @@ def nested_case(rng):
 
 def malformed_case(rng):
     tks = [rng.choice(TKS)]
-    kinds = ["RDefault", "RFunc", "RBound", "RCallableObj", "RNonCallable", "RAsynqFn", "RNcObj", "RNcFrozen"]
+    kinds = ["RDefault", "RFunc", "RBound", "RCallableObj", "RNonCallable", "RAsynqFn", "RNcObj", "RNcFrozen", "RMockObj", "RClassObj"]
     nps = rng.choice([2, 3])
-    ps = [(0, rng.choice(kinds), "BRet") for _ in range(nps)]
+    ps = [(0, rng.choice(kinds), "BRet", i) for i in range(nps)]
+    if ps[0][1] in EXPLICIT and rng.random() < 0.3:
+        ps[1] = (0, ps[0][1], "BRet", 0)           # two patchers given the same object
     shape = rng.choice(["nonlifo", "double-start", "stop-unstarted", "stopall-under-with", "self-nested", "random"])
     pr = lambda: {"OProbe": [0, _args(rng)]}
     if shape == "nonlifo":
@@ -272,15 +315,81 @@ def reactivation_cases(rng, full):
     return out
 
 
+SHARED_STYLES = ["SWith", "SDecor", "SDecorCls", "StartStop", "StartStopAll"]
+SHARED_SHAPES = ["two-targets", "same-target", "sequential", "three"]
+
+
+def shared_style_ok(outer, inner):
+    # a stopall that ends the inner patch would also end a started outer one (not well-bracketed)
+    return not (inner == "StartStopAll" and outer in ("StartStop", "StartStopAll"))
+
+
+def shared_case(rng, tk0, tk1, rk, shape, outer, inner, flip=False):
+    """ONE caller-supplied replacement object given to 2-3 patchers (different targets or the same target) whose
+    lifetimes overlap (or follow each other: "sequential", the control); the surviving patch is probed after the
+    other one has ended.  flip: the surviving (outer) patcher is the one created later."""
+    beh = "BRaise" if rng.random() < 0.2 else "BRet"
+    same = shape in ("same-target", "sequential") and rng.random() < 0.7 or shape == "same-target"
+    tks = [tk0] if same else [tk0, tk1]
+    t_in = 0 if same else 1
+    po, pi = (1, 0) if flip else (0, 1)
+    ps = [None, None]
+    ps[po] = (0, rk, beh, 0)
+    ps[pi] = (t_in, rk, beh, 0)
+    pr = lambda t: {"OProbe": [t, _args(rng)]}
+    oo, oc = open_close(po, outer, rng.random() < 0.3)
+    io, ic = open_close(pi, inner, rng.random() < 0.3)
+    ops = [pr(0)] if rng.random() < 0.4 else []
+    if shape == "sequential":
+        ops += oo + [pr(0)] + oc + [pr(0)] + io + [pr(t_in)] + ic + [pr(t_in)]
+        if rng.random() < 0.5:
+            oo2, oc2 = open_close(po, outer, False)
+            ops += oo2 + [pr(0)] + oc2
+    elif shape == "three":
+        # a third patcher given the same object: two inner patches one after the other (or an unrelated object)
+        t3 = rng.randrange(len(tks))
+        third_shared = rng.random() < 0.7
+        ps.append((t3, rk, beh, 0) if third_shared else (t3, rk, "BRet", 2))
+        st3 = rng.choice([x for x in SHARED_STYLES if shared_style_ok(outer, x)])
+        o3, c3 = open_close(2, st3, rng.random() < 0.3)
+        ops += oo + [pr(0)] + io + [pr(t_in)] + ic + [pr(0)] + o3 + [pr(t3), pr(0)] + c3 + [pr(0)] + oc + [pr(0)]
+    else:
+        ops += oo + ([pr(0)] if rng.random() < 0.7 else []) + io + [pr(t_in)] + ([pr(0)] if not same and rng.random() < 0.6 else [])
+        ops += ic + [pr(0)] + ([pr(t_in)] if not same else []) + oc + [pr(0)]
+    ops += [pr(t) for t in range(len(tks)) if rng.random() < 0.5]
+    return mk(tks, ps, ops, [rng.choice(["patch", "object"]) for _ in ps], reuse=rng.random() < 0.75,
+              part="shared", shape=shape, styles=[outer, inner])
+
+
+def shared_cases(rng, full):
+    out = []
+    pairs = [(a, b) for a in SHARED_STYLES for b in SHARED_STYLES if shared_style_ok(a, b)]
+    for rk in EXPLICIT:
+        tks_ok = [tk for tk in TKS if compat(tk, rk)]
+        if full:
+            for tk0 in tks_ok:
+                for shape in SHARED_SHAPES:
+                    for (a, b) in pairs:
+                        out.append(shared_case(rng, tk0, rng.choice(tks_ok), rk, shape, a, b, flip=rng.random() < 0.4))
+        else:
+            for shape, n in (("two-targets", 5), ("same-target", 3), ("three", 2), ("sequential", 1)):
+                for _ in range(n):
+                    a, b = rng.choice(pairs)
+                    out.append(shared_case(rng, rng.choice(tks_ok), rng.choice(tks_ok), rk, shape, a, b, flip=rng.random() < 0.4))
+    return out
+
+
 def gen_cases(rng, tier):
     if tier == "quick":
         cs = product_cases(rng, False, False)
         cs += reactivation_cases(rng, False)
+        cs += shared_cases(rng, False)
         cs += [nested_case(rng) for _ in range(170)]
         cs += [malformed_case(rng) for _ in range(70)]
     else:
         cs = product_cases(rng, True, True)
         cs += reactivation_cases(rng, True)
+        cs += shared_cases(rng, True)
         cs += [nested_case(rng) for _ in range(8000)]
         cs += [malformed_case(rng) for _ in range(1500)]
     return cs
@@ -311,6 +420,19 @@ CORPUS = [
     mk(["TModFn"], [(0, "RNcObj", "BRet")],
        [{"OStart": [0]}, {"OProbe": [0, [1]]}, {"OStop": [0, "false"]}, {"OStart": [0]}, {"OProbe": [0, [2]]}, {"OStop": [0, "false"]},
         {"OEnter": [0, "SWith"]}, {"OProbe": [0, []]}, {"OExit": [0, "SWith", "true"]}, {"OProbe": [0, [3]]}], ["patch"], corpus=True),
+    # ONE caller-supplied object given to two patches whose lifetimes overlap; the outer patch is used after the inner
+    # one has ended: two module functions / with-blocks (callable object); nested on one method / start-stop (Mock
+    # instance); a class on a method and a staticmethod / decorated function around a with-block, left by an exception
+    mk(["TModFn", "TModFn"], [(0, "RCallableObj", "BRet", 0), (1, "RCallableObj", "BRet", 0)],
+       [{"OEnter": [0, "SWith"]}, {"OProbe": [0, [1]]}, {"OEnter": [1, "SWith"]}, {"OProbe": [1, [5]]}, {"OProbe": [0, [1]]},
+        {"OExit": [1, "SWith", "false"]}, {"OProbe": [0, [1]]}, {"OProbe": [1, [2]]}, {"OExit": [0, "SWith", "false"]}, {"OProbe": [0, [7]]}],
+       ["patch", "patch"], corpus=True),
+    mk(["TMethod"], [(0, "RMockObj", "BRet", 0), (0, "RMockObj", "BRet", 0)],
+       [{"OStart": [0]}, {"OStart": [1]}, {"OProbe": [0, [3]]}, {"OStop": [1, "false"]}, {"OProbe": [0, [4, 5]]},
+        {"OStop": [0, "false"]}, {"OProbe": [0, [6]]}], ["object", "object"], corpus=True),
+    mk(["TMethod", "TStaticmethod"], [(1, "RClassObj", "BRaise", 0), (0, "RClassObj", "BRaise", 0)],
+       [{"OEnter": [1, "SDecor"]}, {"OEnter": [0, "SWith"]}, {"OProbe": [1, [2]]}, {"OExit": [0, "SWith", "true"]}, {"OProbe": [0, [8]]},
+        {"OProbe": [1, []]}, {"OExit": [1, "SDecor", "true"]}, {"OProbe": [0, [9]]}], ["object", "patch"], corpus=True),
     # nested + sequential on one target, exits by exception, one stopall for two starts
     mk(["TMethod"], [(0, "RFunc", "BRet"), (0, "RDefault", "BRaise"), (0, "RBound", "BRet")],
        [{"OEnter": [0, "SWith"]}, {"OProbe": [0, [1]]}, {"OEnter": [1, "SDecor"]}, {"OProbe": [0, [2, 3]]}, {"OExit": [1, "SDecor", "true"]},
@@ -360,8 +482,13 @@ def compare(c, m, io):
 def distribution(cases):
     d = {"part": {}, "target_kind": {}, "replacement_kind": {}, "style": {}, "exit_by_exception": 0, "ops_len": {},
          "max_nesting": {}, "two_targets": 0, "behaviour_raise": 0, "max_activations_of_one_patcher": {},
-         "reactivated_per_activation_replacement": 0, "refusing_replacement_activations": 0, "redecorate_each_time": 0}
+         "reactivated_per_activation_replacement": 0, "refusing_replacement_activations": 0, "redecorate_each_time": 0,
+         "shared_replacement": {"cases_with_one_object_given_to_several_patchers": 0, "cases_with_overlapping_sharing_patches": 0,
+                                "cases_probing_the_survivor_after_the_other_ended": 0, "survivor_probes": 0,
+                                "overlap_on_same_target": 0, "overlap_on_two_targets": 0, "installed_as_is": 0, "wrapped_per_patcher": 0,
+                                "by_kind": {}, "by_survivor_style": {}}}
     for c in cases:
+        _shared_stats(c, d["shared_replacement"])
         part = c.get("meta", {}).get("part", "corpus")
         d["part"][part] = d["part"].get(part, 0) + 1
         for tk in c["tks"]:
@@ -405,6 +532,59 @@ def distribution(cases):
     return d
 
 
+def _shared_stats(c, d):
+    """how often ONE replacement object is given to several patchers, how often their lifetimes overlap, and how often the
+    surviving patch is probed after the other one has ended (simulates the open patchers; any history)"""
+    ps = norm_ps(c["ps"])
+    if not any(sharers(ps, p) for p in range(len(ps))):
+        return
+    d["cases_with_one_object_given_to_several_patchers"] += 1
+    open_ = []           # [p, style, set of sharers that ended meanwhile]
+    overlap = survivor = False
+    same = two = False
+    kinds = set()
+    for o in c["ops"]:
+        n, a = next(iter(o.items()))
+        if n in ("OEnter", "OStart"):
+            p = a[0]
+            if not (0 <= p < len(ps)) or any(e[0] == p for e in open_):
+                continue
+            for e in open_:
+                if e[0] in sharers(ps, p):
+                    overlap = True
+                    kinds.add(ps[p][1])
+                    if ps[e[0]][0] == ps[p][0]:
+                        same = True
+                    else:
+                        two = True
+            open_.append([p, a[1] if n == "OEnter" else "start", set()])
+        elif n in ("OExit", "OStop", "OStopAll"):
+            if n == "OStopAll":
+                closing = [e for e in open_ if e[1] == "start"]
+            else:
+                closing = [e for e in open_ if e[0] == a[0]][-1:]
+            for e in closing:
+                open_.remove(e)
+                for r in open_:
+                    if r[0] in sharers(ps, e[0]):
+                        r[2].add(e[0])
+        elif n == "OProbe":
+            for e in reversed(open_):
+                if ps[e[0]][0] == a[0]:
+                    if e[2]:
+                        survivor = True
+                        d["survivor_probes"] += 1
+                        d["by_survivor_style"][e[1]] = d["by_survivor_style"].get(e[1], 0) + 1
+                    break
+    d["cases_with_overlapping_sharing_patches"] += overlap
+    d["cases_probing_the_survivor_after_the_other_ended"] += survivor
+    d["overlap_on_same_target"] += same
+    d["overlap_on_two_targets"] += two
+    for k in kinds:
+        d["by_kind"][k] = d["by_kind"].get(k, 0) + 1
+        d["installed_as_is" if k in AS_IS else "wrapped_per_patcher"] += 1
+
+
 # ------------------------------------------------------------------------------------------ monitors
 def _ok(r):
     return r == {"RO": ["RDone"]}
@@ -412,7 +592,7 @@ def _ok(r):
 
 def monitors(c, io, build):
     """Direct encoding of the C19 statement over what the implementation did (no model)."""
-    tks, ps, ops = c["tks"], c["ps"], c["ops"]
+    tks, ps, ops = c["tks"], norm_ps(c["ps"]), c["ops"]
     res = io["out"][""][0]
     obs = io["obs"]
     fs = []
@@ -434,9 +614,32 @@ def monitors(c, io, build):
     nact = {}           # patcher -> successful activations so far
     wellformed = True
 
+    ended_during = {}   # open patcher -> patchers GIVEN THE SAME REPLACEMENT OBJECT that ended since it was activated
+
     def new_id(p, g):
-        """the object activation g of patcher p installs: a per-activation replacement is a new object each time"""
-        return {"ONew": [p, g if ps[p][1] in PER_ACTIVATION else 0]}
+        """the object activation g of patcher p installs: a per-activation replacement is a new object each time; an
+        explicit object that patch() installs as is, is the one object all the patchers it was given to install"""
+        rk = ps[p][1]
+        return {"ONew": [p, g] if rk in PER_ACTIVATION else [ps[p][3], 0] if rk in AS_IS else [p, 0]}
+
+    def body_id(p, g):
+        """the object whose code is 'the replacement' of activation g of patcher p (a function / bound method given to
+        several patchers is wrapped once per patcher, the replacement is still the one function)"""
+        return {"ONew": [p, g] if ps[p][1] in PER_ACTIVATION else [ps[p][3], 0]}
+
+    def sharing_ctx(p):
+        """'' | ':sharing-patch-ended' | ':sharing-patch-active': p's replacement object was also given to another
+        patch whose lifetime overlapped p's current activation and that has ended / is still active"""
+        if ended_during.get(p):
+            return ":sharing-patch-ended"
+        if any(q in sharers(ps, p) for q, _, _ in stack):
+            return ":sharing-patch-active"
+        return ""
+
+    def note_closed(q):
+        for r, _, _ in stack:
+            if r in sharers(ps, q):
+                ended_during.setdefault(r, set()).add(q)
 
     def expected(t):
         for p, _, g in reversed(stack):
@@ -469,10 +672,11 @@ def monitors(c, io, build):
             if any(q == p for q, _, _ in stack):
                 wellformed = False
                 break
-            t, rk, beh = ps[p]
+            t, rk, beh = ps[p][:3]
             sty = a[1] if n == "OEnter" else "start"
             if _ok(res[k]):
                 stack.append((p, n == "OStart", nact.get(p, 0)))
+                ended_during[p] = set()
                 nact[p] = nact.get(p, 0) + 1
                 if not check_slots(k, "installed", "%s:%s" % (sty, rk)):
                     return fs
@@ -498,6 +702,7 @@ def monitors(c, io, build):
                 wellformed = False
                 break
             stack.pop()
+            note_closed(p)
             what = "%s:%s" % ("stop" if n == "OStop" else a[1], "exception" if a[-1] == "true" else "normal")
             if not _ok(res[k]):
                 add("restored", "%s:%s:raised" % (what, ps[p][1]), "ending patcher %d raised %s" % (p, json.dumps(res[k])))
@@ -506,7 +711,7 @@ def monitors(c, io, build):
                 return fs
         elif n == "OStopAll":
             while stack and stack[-1][1]:
-                stack.pop()
+                note_closed(stack.pop()[0])
             if any(s for _, s, _ in stack):
                 wellformed = False
                 break
@@ -539,15 +744,20 @@ def monitors(c, io, build):
                 continue
             rk, beh = ps[active][1], ps[active][2]
             cell = "%s:%s" % (tks[t], rk)
+            # the clause holds for as long as THIS patch is active, whatever happened to other patches meanwhile:
+            # the site says when a patch given the same replacement object overlapped / ended during this activation
+            ctx = sharing_ctx(active)
             if rk in NONCALLABLE:
-                if rk == "RNonCallable" and ob.get("as_is") != active:
+                as_is = ob.get("as_is")
+                as_is = as_is if isinstance(as_is, list) else [as_is]
+                if rk == "RNonCallable" and active not in as_is:
                     add("non-callable-as-is", "%s:not-the-given-object" % cell,
                         "op %d: the non-callable replacement of patcher %d is not what the attribute holds (%s)" % (k, active, json.dumps(cur)))
                 if ob["convs"]:
                     add("non-callable-as-is", "%s:became-callable" % cell, "op %d: a non-callable replacement is callable once installed" % k)
                 continue
             if len(ob["convs"]) != 4:
-                add("reach-replacement", "%s:not-callable-when-installed" % cell,
+                add("reach-replacement", "%s:not-callable-when-installed%s" % (cell, ctx),
                     "op %d: the installed replacement of patcher %d (%s) is not callable" % (k, active, rk))
                 continue
             for cv in ob["convs"]:
@@ -557,9 +767,9 @@ def monitors(c, io, build):
                     site = "replacement-not-called"
                 elif len(calls) > 1:
                     site = "called-%d-times" % len(calls)
-                elif calls[0][0] != new_id(active, agen):
+                elif calls[0][0] != body_id(active, agen):
                     # the replacement of THIS activation: an earlier activation's object is not it
-                    site = ("reached-earlier-activation" if "ONew" in calls[0][0] and calls[0][0]["ONew"][0] == active
+                    site = ("reached-earlier-activation" if "ONew" in calls[0][0] and calls[0][0]["ONew"][0] == active and rk in PER_ACTIVATION
                             else "reached-%s-instead" % next(iter(calls[0][0])))
                 else:
                     recv = calls[0][1]
@@ -567,18 +777,20 @@ def monitors(c, io, build):
                     if extra is None or recv[len(extra):] != args or extra not in ([], [-100], [-200]):
                         site = "wrong-arguments"
                     else:
-                        wid = new_id(active, agen)["ONew"]
+                        wid = body_id(active, agen)["ONew"]
                         want = ["raise", "VErr", wid] if beh == "BRaise" else ["ret", ["ret", "new", wid, [str(x) for x in recv]]]
                         if cv["outcome"] != want:
                             site = "wrong-result-%s" % cv["outcome"][0] + ("-" + str(cv["outcome"][1]) if cv["outcome"][0] == "raise" else "")
                 if site:
-                    add("reach-replacement", "%s:%s:%s" % (cell, cv["conv"], site),
-                        "op %d: %s on target %d (%s) with args %s while patcher %d (%s) is active: calls=%s outcome=%s" % (
-                            k, cv["conv"], t, tks[t], args, active, rk, json.dumps(calls), json.dumps(cv["outcome"])[:200]))
+                    add("reach-replacement", "%s:%s:%s%s" % (cell, cv["conv"], site, ctx),
+                        "op %d: %s on target %d (%s) with args %s while patcher %d (%s) is active%s: calls=%s outcome=%s" % (
+                            k, cv["conv"], t, tks[t], args, active, rk,
+                            " (patcher(s) %s, given the same replacement object, ended during this activation)" % sorted(ended_during[active])
+                            if ended_during.get(active) else "", json.dumps(calls), json.dumps(cv["outcome"])[:200]))
             first = ob["convs"][0]
             for cv in ob["convs"][1:]:
                 if cv["outcome"] != first["outcome"] or [x[1] for x in cv["calls"]] != [x[1] for x in first["calls"]]:
-                    add("conventions-agree", "%s:%s-vs-CSync" % (cell, cv["conv"]),
+                    add("conventions-agree", "%s:%s-vs-CSync%s" % (cell, cv["conv"], ctx),
                         "op %d: %s and the synchronous call disagree: %s / %s vs %s / %s" % (
                             k, cv["conv"], json.dumps(cv["outcome"])[:120], json.dumps(cv["calls"]), json.dumps(first["outcome"])[:120], json.dumps(first["calls"])))
                     break
@@ -594,7 +806,7 @@ def monitors(c, io, build):
 
 
 def shrink(c):
-    tks, ps, ops, api = c["tks"], c["ps"], c["ops"], c.get("api")
+    tks, ps, ops, api = c["tks"], norm_ps(c["ps"]), c["ops"], c.get("api")
 
     reuse = c.get("reuse", True)
 
@@ -630,7 +842,12 @@ def shrink(c):
         if n in ("OExit", "OStop", "OStopAll") and a[-1] == "true":
             yield again(ops[:i] + [{n: a[:-1] + ["false"]}] + ops[i + 1:])
     for i, p in enumerate(ps):
-        if p[2] == "BRaise":
-            yield mk(tks, ps[:i] + [[p[0], p[1], "BRet"]] + ps[i + 1:], ops, api, reuse=reuse, shrunk=True)
+        if p[2] == "BRaise" and p[3] == i:
+            # (patchers given the same object have the same behaviour)
+            yield mk(tks, [[q[0], q[1], "BRet" if q[3] == i else q[2], q[3]] for q in ps], ops, api, reuse=reuse, shrunk=True)
+    # every patcher gets an object of its own
+    for i, p in enumerate(ps):
+        if p[3] != i:
+            yield mk(tks, ps[:i] + [[p[0], p[1], p[2], i]] + ps[i + 1:], ops, api, reuse=reuse, shrunk=True)
     if not reuse:
         yield mk(tks, ps, ops, api, reuse=True, shrunk=True)
